@@ -3,7 +3,7 @@
 # (repo tests pass with it, demo fails with it and passes without it) and store it under /verif/seeded/.
 set -u
 P="$1"; M="$2"
-W=/tmp/seed/$P; S=$W/SEED/$M
+W=${SEEDROOT:-/tmp/seed}/$P; S=$W/SEED/$M
 export GOFLAGS=-mod=mod GOPROXY=off GOSUMDB=off GOTOOLCHAIN=local
 [ -f "$S/patch.diff" ] || { echo "no patch in $S"; exit 2; }
 cd $W || exit 2
@@ -31,7 +31,7 @@ go test -count=1 -run "^($names)\$" $pkgs > /tmp/confirm_with.log 2>&1; rc_with=
 rm -f $dests; git checkout -q -- . ; git clean -fdq -e SEED
 echo "$P/$M: build=$rc_build suite_with_change=$rc_suite demo_without=$rc_without demo_with=$rc_with (want 0 0 0 nonzero)"
 if [ $rc_build -eq 0 ] && [ $rc_suite -eq 0 ] && [ $rc_without -eq 0 ] && [ $rc_with -ne 0 ]; then
-  id="$P-$(echo $M | tr 'A-Z' 'a-z')"
+  id="$P-$(echo $M | tr A-Z a-z)${SEEDSUFFIX:-}"
   D=/verif/seeded/$id; mkdir -p $D/demo
   cp $S/patch.diff $D/; cp $demos $D/demo/; [ -f $S/notes.md ] && cp $S/notes.md $D/
   tail -5 /tmp/confirm_with.log > $D/demo_fails_with_change.txt
